@@ -1418,7 +1418,7 @@ class OP2:
             bytes_per = self._ibytes
         elif form == "uint":
             frm = self._intstr.replace("i", "u")
-            frmu = self._intstru.replace("i", "I")
+            frmu = self._intstru.replace("i", "I").replace("q", "Q")
             bytes_per = self._ibytes
         elif form == "double":
             frm = self._endian + "f8"
